@@ -347,20 +347,76 @@ class Runner:
         self.t.delete_cell(self._xy(op))
         self.m.delete_cell(op["x"], op["y"])
 
+    # The caller may keep the Row object it passed in ("hold") and may ask the table not to copy it ("noclone": the object
+    # itself becomes the stored row).  A kept object is used again later by op_reuse_row.
+    held = None
+
+    def _row_arg(self, op):
+        row = mk_row(op["row"])
+        if op.get("hold"):
+            if self.held is None:
+                self.held = []
+            self.held.append((row, bool(op.get("noclone"))))
+            self.labels.add("row-object-kept" + ("-noclone" if op.get("noclone") else ""))
+        return row
+
     def op_set_row(self, op):
         r = op["row"]
-        self.t.set_row(render_y(op["y"], op.get("form", "t"), self.m.height), mk_row(r))
+        row = self._row_arg(op)
+        if op.get("noclone"):
+            self.t.set_row(render_y(op["y"], op.get("form", "t"), self.m.height), row, clone=False)
+        else:
+            self.t.set_row(render_y(op["y"], op.get("form", "t"), self.m.height), row)
         self.m.set_row(op["y"], rowv(r), r.get("r", 1))
 
     def op_insert_row(self, op):
         r = op["row"]
-        self.t.insert_row(render_y(op["y"], op.get("form", "t"), self.m.height), mk_row(r))
+        row = self._row_arg(op)
+        if op.get("noclone"):
+            self.t.insert_row(render_y(op["y"], op.get("form", "t"), self.m.height), row, clone=False)
+        else:
+            self.t.insert_row(render_y(op["y"], op.get("form", "t"), self.m.height), row)
         self.m.insert_row(op["y"], rowv(r), r.get("r", 1))
 
     def op_append_row(self, op):
         r = op["row"]
-        self.t.append_row(mk_row(r))
+        row = self._row_arg(op)
+        if op.get("noclone"):
+            self.t.append_row(row, clone=False)
+        else:
+            self.t.append_row(row)
         self.m.append_row(rowv(r), r.get("r", 1))
+
+    def op_reuse_row(self, op):
+        """A Row object kept from an earlier call is handed to the table again (default copying).  What the table must
+        receive is what that object says at this moment: its XML, expanded by the independent reader."""
+        if not self.held:
+            return
+        row, live = self.held[op.get("h", 0) % len(self.held)]
+        rel = odfread.parse_fragment(row.serialize())
+        cells, rep = odfread.expand_row(rel)
+        vals = []
+        for x, (v, _vt, s_, _c) in enumerate(cells):
+            vals.append((v if not isinstance(v, odfread.Opaque) else row.get_value(x), s_))
+        via = op.get("via", "append_row")
+        if live:
+            # the object was given to the table without copy: the table may have edited the stored row through other
+            # wrappers since.  The library promises nothing for a wrapper whose own width is out of date, nor for a row
+            # passed as replacement of (a part of) itself: such reuses are left out, the others are appended.
+            if row.width != len(vals) or (row.repeated or 1) != rep:
+                self.ctx.count("reuse-skipped:kept-object-out-of-date")
+                return
+            via = "append_row"
+        self.labels.add("row-object-reused")
+        if via == "append_row":
+            self.t.append_row(row)
+            self.m.append_row(vals, rep)
+        elif via == "set_row":
+            self.t.set_row(op["y"], row)
+            self.m.set_row(op["y"], vals, rep)
+        else:
+            self.t.insert_row(op["y"], row)
+            self.m.insert_row(op["y"], vals, rep)
 
     def op_extend_rows(self, op):
         self.t.extend_rows([mk_row(r) for r in op["rows"]])
@@ -452,6 +508,58 @@ class Runner:
                          for x, (v, _vt, s_, _c) in enumerate(row)])
         self.m = Grid(ex["col_styles"], rows)
         self.labels.add("strip-op")
+
+    def _resync_model(self):
+        ex = odfread.expand_table(odfread.parse_fragment(self.t.serialize()))
+        rows = []
+        for y, row in enumerate(ex["rows"]):
+            rows.append([(v if not isinstance(v, odfread.Opaque) else self.t.get_value((x, y)), s_)
+                         for x, (v, _vt, s_, _c) in enumerate(row)])
+        self.m = Grid(ex["col_styles"], rows)
+
+    def op_live_row(self, op):
+        """Row-level reads and in-place narrowing edits on the stored row itself (get_row(clone=False)): the table's own
+        answers must follow.  Only edits that cannot outgrow the declared columns are used (a row edited behind the table's
+        back cannot ask it for more columns)."""
+        if self.m.height == 0:
+            return
+        y = op["y"] % self.m.height
+        row = self.t.get_row(y, clone=False)
+        for e in op["edits"]:
+            k = e["k"]
+            w = row.width
+            if k == "read" and w:
+                row.get_cell(e["kx"] % w)
+                row.get_value(e["kx"] % w)
+            elif k == "read_table" and w:
+                self.t.get_cell((e["kx"] % w, y))
+                self.t.get_value((e["kx"] % w, y))
+            elif k == "read_first_trailing" and w:
+                # the first of the empty cells that a following rstrip removes
+                mrow = self.m.get_row(y)
+                x = len(mrow)
+                while x > 0 and mrow[x - 1][0] is None and (e.get("aggr") or mrow[x - 1][1] is None):
+                    x -= 1
+                if x < w:
+                    (row if e.get("via_row") else self.t).get_cell(x if e.get("via_row") else (x, y))
+                    self.t.get_value((x, y))
+            elif k == "rstrip":
+                row.rstrip(aggressive=bool(e.get("aggr")))
+            elif k == "set_value" and w:
+                row.set_value(e["kx"] % w, VALUES[e["v"]])
+            elif k == "delete_cell" and w:
+                row.delete_cell(e["kx"] % w)
+        self.labels.add("live-row-edit")
+        self._resync_model()
+        if op.get("then_write") is not None:
+            # a table-level write exactly at the (new) end of that row, then a read by coordinates
+            x = len(self.m.get_row(y))
+            if x <= MAXDIM + 2:
+                self.op_set_value({"x": x, "y": y, "v": op["then_write"], "s": 0, "form": "t"})
+                got = self.t.get_value((x, y))
+                self.ctx.check(same_value(got, read_value(VALUES[op["then_write"]])), (self.mode, "live_row", "write-at-row-end-not-read-back"),
+                               f"after Row-level edits on the stored row {y}, set_value(({x},{y}), {VALUES[op['then_write']]!r}) "
+                               f"then get_value reads {got!r}", self.case)
 
     def op_row_edit(self, op):
         """get_row -> Row-level edits on the detached copy -> push back."""
@@ -770,9 +878,9 @@ def _eq(a, b):
 
 
 ROW_ADDERS = {"set_value", "set_cell", "insert_cell", "append_cell", "set_row", "insert_row", "append_row",
-              "extend_rows", "set_row_values", "set_row_cells", "set_values", "set_cells", "row_edit"}
+              "extend_rows", "set_row_values", "set_row_cells", "set_values", "set_cells", "row_edit", "reuse_row"}
 MUTATORS = ROW_ADDERS | {"delete_cell", "delete_row", "set_column_values", "set_column_cells", "set_column",
-                         "insert_column", "append_column", "delete_column", "clear", "strip"}
+                         "insert_column", "append_column", "delete_column", "clear", "strip", "live_row"}
 
 
 def run_history(spec, ops, mode, ctx):
@@ -853,17 +961,68 @@ def make_machine(ctx, mode, corpus_specs=(), warm_weight=1):
         def delete_cell(self, cx, kx_, cy, ky, form):
             self.go({"op": "delete_cell", "x": self.X(cx, kx_), "y": self.Y(cy, ky), "form": form})
 
-        @rule(cy=COORD_CLS, ky=kx, r=rowarg, form=FORM1)
-        def set_row(self, cy, ky, r, form):
-            self.go({"op": "set_row", "y": self.Y(cy, ky), "row": r, "form": form})
+        KEEP = st.sampled_from([(False, False)] * 5 + [(True, False), (True, True), (True, True)])
 
-        @rule(cy=COORD_CLS, ky=kx, r=rowarg, form=FORM1)
-        def insert_row(self, cy, ky, r, form):
-            self.go({"op": "insert_row", "y": self.Y(cy, ky), "row": r, "form": form})
+        @rule(cy=COORD_CLS, ky=kx, r=rowarg, form=FORM1, keep=KEEP)
+        def set_row(self, cy, ky, r, form, keep):
+            op = {"op": "set_row", "y": self.Y(cy, ky), "row": r, "form": form}
+            if keep[0]:
+                op.update({"hold": True, "noclone": keep[1]})
+            self.go(op)
 
-        @rule(r=rowarg)
-        def append_row(self, r):
-            self.go({"op": "append_row", "row": r})
+        @rule(cy=COORD_CLS, ky=kx, r=rowarg, form=FORM1, keep=KEEP)
+        def insert_row(self, cy, ky, r, form, keep):
+            op = {"op": "insert_row", "y": self.Y(cy, ky), "row": r, "form": form}
+            if keep[0]:
+                op.update({"hold": True, "noclone": keep[1]})
+            self.go(op)
+
+        @rule(r=rowarg, keep=KEEP)
+        def append_row(self, r, keep):
+            op = {"op": "append_row", "row": r}
+            if keep[0]:
+                op.update({"hold": True, "noclone": keep[1]})
+            self.go(op)
+
+        @rule(v0=vi, rep=st.integers(2, 4), tailv=st.one_of(st.none(), vi), flush=st.sampled_from(["insert_row", "delete_row", "set_row", "none"]),
+              xi=st.integers(0, 3), v=vi, s=si, again=st.booleans())
+        def template_row_cycle(self, v0, rep, tailv, flush, xi, v, s, again):
+            """a row handed over without copy and kept by the caller as a template: the table then edits the stored row
+            (splitting a repeated cell: the width stays, the run structure changes), and the caller appends the kept
+            object again."""
+            r = self.r
+            if r is None or r.dead or r.m.height > MAXDIM:
+                return
+            cells = [{"v": v0, "s": 0, "r": rep}]
+            if tailv is not None:
+                cells.append({"v": tailv, "s": 0, "r": 1})
+            self.go({"op": "append_row", "row": {"cells": cells, "r": 1}, "hold": True, "noclone": True})
+            if r.dead:
+                return
+            h = len(r.held) - 1
+            y = r.m.height - 1
+            if flush == "insert_row":
+                self.go({"op": "insert_row", "y": 0, "row": {"cells": [], "r": 1}, "form": "t"})
+                y += 1
+            elif flush == "delete_row" and y > 0:
+                self.go({"op": "delete_row", "y": 0, "form": "t"})
+                y -= 1
+            elif flush == "set_row" and y > 0:
+                self.go({"op": "set_row", "y": 0, "row": {"cells": [{"v": v, "s": 0, "r": 1}], "r": 1}, "form": "t"})
+            if r.dead:
+                return
+            self.go({"op": "set_value", "x": xi % rep, "y": y, "v": v, "s": s, "form": "t"})
+            if r.dead:
+                return
+            self.go({"op": "reuse_row", "h": h, "via": "append_row", "y": 0})
+            if again and not r.dead:
+                self.go({"op": "set_value", "x": (xi + 1) % (rep + (1 if tailv is not None else 0)), "y": r.m.height - 1, "v": v0, "s": s, "form": "t"})
+
+        @rule(h=st.integers(0, 3), via=st.sampled_from(["append_row", "append_row", "set_row", "insert_row"]), cy=COORD_CLS, ky=kx)
+        def reuse_row(self, h, via, cy, ky):
+            if self.r is None or self.r.dead or not self.r.held:
+                return
+            self.go({"op": "reuse_row", "h": h, "via": via, "y": self.Y(cy, ky)})
 
         @rule(rows=st.lists(rowarg, min_size=1, max_size=3))
         def extend_rows(self, rows):
@@ -969,6 +1128,18 @@ def make_machine(ctx, mode, corpus_specs=(), warm_weight=1):
                     self.go({"op": "insert_row", "y": self.Y(ecls, ek), "row": r, "form": "t"})
                 else:
                     self.go({"op": "set_value", "x": self.X(ecls, ek), "y": self.Y(ecls, ek), "v": v, "s": s, "form": "t"})
+
+        if mode in ("C02", "C07"):
+            @rule(ky=kx, edits=st.lists(st.one_of(
+                st.fixed_dictionaries({"k": st.sampled_from(["read", "read_table", "read"]), "kx": kx}),
+                st.fixed_dictionaries({"k": st.just("read_first_trailing"), "aggr": st.booleans(), "via_row": st.booleans()}),
+                st.fixed_dictionaries({"k": st.just("rstrip"), "aggr": st.booleans()}),
+                st.fixed_dictionaries({"k": st.just("rstrip"), "aggr": st.booleans()}),
+                st.fixed_dictionaries({"k": st.just("set_value"), "kx": kx, "v": vi}),
+                st.fixed_dictionaries({"k": st.just("delete_cell"), "kx": kx})), min_size=1, max_size=4),
+                then_write=st.one_of(st.none(), vi))
+            def live_row(self, ky, edits, then_write):
+                self.go({"op": "live_row", "y": ky, "edits": edits, "then_write": then_write})
 
         @rule(really=st.integers(0, 5))
         def clear(self, really):
